@@ -14,60 +14,60 @@ PARAMS = ("signature recovery (secp256k1/SHA-256), protobuf/JSON decoding, go-et
 MON = "implementation-level monitor written from the property statement, independent of the Lean model, run on every generated history"
 
 P = {
- "C01": dict(args=["-replicas", "-checktx", "-queries"], facts=["nondeterminism"],
+ "C01": dict(args=["-replicas", "-checktx", "-queries", "-evm"], facts=["nondeterminism"],
    text="Machine-checked order-independence of every node-local choice on the consensus path (Go map ranges, sort comparators): sorted write sequence of ledger commits, strict total orders behind every sort.Sort, canonical validator-update diff, order-free cache refresh / EVM sync-out / revert; the model's step function is deterministic by construction. The nondeterminism inventory is re-extracted from /repo on every run and must match the reviewed expectation (each site mapped to its lemma).",
    note="Trusted: Lean kernel; the extractor's inventory (syntactic, call-graph based); determinism of IAVL, LevelDB, go-ethereum given identical call sequences; Go's sort.Sort being a deterministic function of its input for the one comparator with ties (vote options). Replica-vs-replica comparison of real nodes supports, never replaces, the theorems.",
    tech="Lean 4 permutation-invariance and sort-uniqueness theorems + regenerated nondeterminism inventory + two-replica differential run"),
- "C02": dict(args=["-checktx"], facts=[],
+ "C02": dict(args=["-checktx", "-evm"], facts=[],
    text="Conservation of value as an invariant of the application model: per-operation theorems (transfer, staking, unstaking incl. forced release, withdrawal, fee hand-over, refunds, slashing, jailing, commit) over a generic sum-over-map lemma, lifted over reachable states under explicit no-wrap bounds; the EVM enters through an oracle hypothesis (creates no value). The full statement is false in the code as in the model where two stakes share an unbonding-ledger key (proved counter-example; known finding), so the lifted theorem carries the hypothesis that excludes it.",
    note="Trusted: Lean kernel; hand-written model validated by differential runs; EVM value conservation is an assumption on go-ethereum (validated by C17's reference run); partial: see theorem names ending in _partial / *_statement in RigoProps/C02.lean.",
    tech="Lean 4 inductive invariant (sum conservation) + differential correspondence + conservation monitor on the real app"),
  "C03": None,
- "C04": dict(args=["-checktx"], facts=["tx_dispatch"],
+ "C04": dict(args=["-checktx", "-evm"], facts=["tx_dispatch"],
    text="Nonce discipline proved on the model's transaction handler: success implies nonce equality and +1 for the sender only, failure leaves every nonce unchanged, no operation ever decreases a nonce, hence a (sender, nonce) pair succeeds at most once in any history.",
    note="Trusted: Lean kernel; model validated differentially; contract path through the EVM oracle hypothesis (sender nonce +1, others non-decreasing).",
    tech="Lean 4 per-step theorems + monotonicity induction + differential correspondence + nonce monitor"),
- "C05": dict(args=["-checktx"], facts=["tx_dispatch"],
+ "C05": dict(args=["-checktx", "-evm"], facts=["tx_dispatch"],
    text="Atomicity proved on the model: a DeliverTx that returns a non-zero code leaves the observable state (balances, nonces, names, stakes, unbonding, rewards, proposals, parameters, fee sum, limiter) unchanged up to empty account records, for every failure point of every transaction type, under an explicit fee no-wrap bound.",
    note="Trusted: Lean kernel; model validated differentially; EVM failure = nothing synced out (oracle); empty account records created by failed transactions are identified with absent accounts (no query distinguishes them).",
    tech="Lean 4 case analysis over validation/execution failure points + differential correspondence + before/after dump monitor"),
- "C06": dict(args=["-checktx", "-queries", "-replicas"], facts=["commit_order"],
+ "C06": dict(args=["-checktx", "-queries", "-replicas", "-restarts", "-evm"], facts=["commit_order"],
    text="Non-interference proved by unwinding on the model: CheckTx changes only the mempool views, consensus operations never read them, queries are pure; hence the outputs and consensus state of any schedule equal those of the schedule with all CheckTx/Query calls erased, and the mempool view is reset at commit.",
    note="Trusted: Lean kernel; model validated differentially with CheckTx/Query lines interleaved; the quiet-vs-noisy replica run on real nodes supports the theorem. The defect that made this false (limiter shared with CheckTx) was repaired in /repo (fix commit c20f06e).",
    tech="Lean 4 unwinding / non-interference proof + differential correspondence + quiet-vs-noisy replica monitor"),
- "C07": dict(args=["-restarts", "-replicas", "-checktx"], facts=[],
+ "C07": dict(args=["-restarts", "-replicas", "-checktx", "-evm"], facts=[],
    text="Restart equivalence on the model: at every block boundary all ledger views equal the committed state and a restart loses only allDelegs, limiter (both recomputed by the next BeginBlock before use) and lastValidators. The full statement is false in the code as in the model (lastValidators is not persisted: proved witness; known finding), the partial theorem states exactly what is preserved.",
    note="Trusted: Lean kernel; model validated differentially with restart operations (real side: data directory copied and reopened); app hashes are functions of committed ledgers whose IAVL roots are not modelled. Partial: restart_equiv only up to lastValidators.",
    tech="Lean 4 boundary-coherence invariant + witness of the non-persisted validator list + differential correspondence + restarted-vs-continuous replica monitor"),
- "C10": dict(args=["-restarts"], facts=[],
+ "C10": dict(args=["-restarts", "-evm"], facts=[],
    text="Merge-diff correctness of the validator-update computation (applying the updates to the old address-sorted set yields the new one), well-formedness for Tendermint's acceptance rules, sortedness/uniqueness of the orders used, and the step relation between the reported list and the selected top-N of eligible committed delegatees. Known deviations (list starts empty at genesis and after restart; zero-power delegatees; emptying the set) are proved witnesses and known findings.",
    note="Trusted: Lean kernel; model validated differentially; Tendermint's UpdateWithChangeSet transcribed in the proofs file and in tmsim. Partial: the fold-from-genesis statement holds only from the reported list (which starts empty).",
    tech="Lean 4 functional-induction proof of the merge diff + Tendermint acceptance spec + differential correspondence + tmsim fold monitor"),
- "C11": dict(args=["-checktx"], facts=[],
+ "C11": dict(args=["-checktx", "-evm"], facts=[],
    text="Delegatee bookkeeping invariant (total = sum of bonded stakes, self = sum of own stakes, every stake targets its delegatee) proved inductive over all operations and reachable states, total-power query equals the sum; single location of stakes under unique stake keys, with the proved counter-example for colliding genesis keys (known finding).",
    note="Trusted: Lean kernel; model validated differentially; UniqueTxHashes (sha256 / Tendermint) is a hypothesis of the single-location theorem.",
    tech="Lean 4 inductive invariant + differential correspondence + recomputed-sums monitor"),
- "C12": dict(args=["-checktx"], facts=[],
+ "C12": dict(args=["-checktx", "-evm"], facts=[],
    text="Owner-only release, loss of voting power at release, refund height fixed at release, and exactly-once refund of power x 10^18 to the owner at the first block end at which the stake is committed and mature, proved over the model's ghost refund log; the colliding-key case is excluded by hypothesis (known finding).",
    note="Trusted: Lean kernel; model validated differentially; refunds observed on the real app as EndBlock balance deltas.",
    tech="Lean 4 theorems over the refund log + differential correspondence + refund monitor"),
- "C13": dict(args=["-checktx"], facts=["constants"],
+ "C13": dict(args=["-checktx", "-evm"], facts=["constants"],
    text="Issuance equation of BeginBlock (per account: reward-per-power times the powers of its stakes under signing validators at the ledger version the code reads), reward balance invariant, and exact withdrawal semantics proved on the model; that vote powers equal the ledger totals at that version is the simulated Tendermint pipeline (tmsim). Heights 2-4 read the wrong version (known finding).",
    note="Trusted: Lean kernel; model validated differentially; tmsim's +2 validator pipeline; the lag constant 4 is re-extracted from /repo.",
    tech="Lean 4 issuance / withdrawal theorems + differential correspondence + reward monitor"),
- "C14": dict(args=[], facts=[],
+ "C14": dict(args=["-evm"], facts=[],
    text="Exact slashing arithmetic for stakes and for voting weights in open proposals, frame (nothing else changes), and the jailing threshold with its effect (all stakes to unbonding with refund height H + period) proved on the model.",
    note="Trusted: Lean kernel; model validated differentially with evidence and absence bursts; the signing window is the one the code uses (inclusive, window+1 heights).",
    tech="Lean 4 arithmetic/frame theorems + differential correspondence + slash/jail monitor"),
- "C15": dict(args=["-checktx", "-queries"], facts=["merge_fields"],
+ "C15": dict(args=["-checktx", "-queries", "-evm"], facts=["merge_fields"],
    text="Tally invariant, snapshot voters, validators-only proposals, window-restricted re-votes, parameter change only through a frozen proposal with a 2/3 majority at its applying height, field-wise merge semantics over the extracted 19-field list, and active parameters = committed query, proved on the model.",
    note="Trusted: Lean kernel; model validated differentially; JSON parsing of options is a parameter (parsed result supplied by the real decoder); MergeGovParams field list re-extracted from /repo on every run.",
    tech="Lean 4 invariants over proposals and parameters + regenerated merge field list + differential correspondence + governance monitor"),
- "C16": dict(args=["-checktx"], facts=["tx_dispatch"],
+ "C16": dict(args=["-checktx", "-evm"], facts=["tx_dispatch"],
    text="Admission (price = governance price, gas x price >= minimum fee, intrinsic gas for contracts), exact native charge gas x price with gasUsed = gas, fee accumulation only for successful transactions, proposer credited exactly the block's fee sum (burnt iff no proposer), proved on the model under an explicit no-wrap bound.",
    note="Trusted: Lean kernel; model validated differentially; contract charge through the EVM oracle (gasUsed <= gas).",
    tech="Lean 4 per-step arithmetic theorems + differential correspondence + fee monitor"),
- "C19": dict(args=["-queries", "-restarts", "-checktx"], facts=[],
+ "C19": dict(args=["-queries", "-restarts", "-checktx", "-evm"], facts=[],
    text="Queries are pure functions of the committed history; history is append-only (only Commit appends), so an answer for height h never changes; mid-block and mempool state are invisible to queries; each path returns the committed value of the requested version, proved on the model.",
    note="Trusted: Lean kernel; model validated differentially with queries of every path at random heights and moments (canonicalised JSON); IAVL's immutable versions not modelled.",
    tech="Lean 4 history-immutability and purity theorems + differential correspondence + remembered-answers monitor"),
